@@ -576,7 +576,9 @@ fn compile_depth(
                 match value {
                     Value::Ident(ident) => {
                         let x = ident.ty().context("no type data")?;
-                        if !x.supports_negate() {
+                        // (the same view of the type as the check made while parsing: an
+                        // alias of a number type is a number type)
+                        if !x.disregard_distractors(false).supports_negate() {
                             bail!("cannot negate")
                         }
                     }
